@@ -217,9 +217,9 @@ struct Ctx {
   uint64_t sigOf(int k) const { return capiVocabulary ? 0 : prog->keys[k].sigVersion; }   // the C interface has no rule signatures
   std::string kdesc(int k) const { return "#" + std::to_string(k); }
 
-  void event(const char* what) {   // every observable event is a step; cancellation is placed on steps
+  void event(const char* what, int key = -1, int aux = -1000) {   // every observable event is a step; cancellation is placed on steps
     static const bool trace = getenv("EM_TRACE") != nullptr;
-    if (trace) fprintf(stderr, "  [b%llu s%ld] %s\n", (unsigned long long)buildNo, step, what);
+    if (trace) fprintf(stderr, "  [b%llu s%ld] %s #%d %s\n", (unsigned long long)buildNo, step, what, key, aux == -1000 ? "" : std::to_string(aux).c_str());
     ++gEvents;
     long s = step++;
     if (cancelAtStep >= 0 && s == cancelAtStep && !cancelIssued && cancelFn) { cancelIssued = true; cancelIssuedAtStep = s; cancelFn(); }
@@ -242,7 +242,7 @@ struct Ctx {
   int onLookup(const std::string& name) { return prog->find(name); }
   bool onIsResultValid(int k, const std::string& v) {
   std::unique_lock<std::recursive_mutex> _g(big, std::defer_lock); if (sched == Sched::S2Threads) _g.lock(); reap();
-    checkThread("isResultValid"); event("isResultValid");
+    checkThread("isResultValid"); event("isResultValid", k);
     const KeyDef& kd = prog->keys[k];
     bool ans;
     if (kd.isInput) ans = (v == world.ext[k]);
@@ -259,7 +259,7 @@ struct Ctx {
   }
   void onStatus(int k, int kind) {
   std::unique_lock<std::recursive_mutex> _g(big, std::defer_lock); if (sched == Sched::S2Threads) _g.lock(); reap();
-    checkThread("updateStatus"); event("updateStatus");
+    checkThread("updateStatus"); event("updateStatus", k, kind);
     if (kind == 0) { scanningSeen[k] = 1; return; }
     if (kind == 1) {
       ++nUpToDate;
@@ -301,7 +301,7 @@ struct Ctx {
   }
   void onNeedsToRun(int k, int reason, int inputKey) {
   std::unique_lock<std::recursive_mutex> _g(big, std::defer_lock); if (sched == Sched::S2Threads) _g.lock(); reap();
-    checkThread("determinedRuleNeedsToRun"); event("determinedRuleNeedsToRun");
+    checkThread("determinedRuleNeedsToRun"); event("determinedRuleNeedsToRun", k, reason);
     reasonSeen[k] = reason; reasonInput[k] = inputKey;
     if (!monitorsOn) return;
     const Shadow& s = shadow[k];
@@ -320,7 +320,7 @@ struct Ctx {
   }
   void onCreateTask(int k) {
   std::unique_lock<std::recursive_mutex> _g(big, std::defer_lock); if (sched == Sched::S2Threads) _g.lock(); reap();
-    checkThread("createTask"); event("createTask");
+    checkThread("createTask"); event("createTask", k);
     ++nExecuted;
     if (!traces.empty()) traces.back().executed.push_back(k);
     if (!monitorsOn) { createdThisBuild[k] = 1; return; }
@@ -419,7 +419,7 @@ inline void TaskCore::issue(TaskOps& ops, size_t id, const Req& rq) {
 }
 inline void TaskCore::onStart(TaskOps& ops) {
   std::unique_lock<std::recursive_mutex> _g(cx.big, std::defer_lock); if (cx.sched == Sched::S2Threads) _g.lock(); cx.reap();
-  cx.checkThread("start"); cx.event("start");
+  cx.checkThread("start"); cx.event("start", key);
   if (st != Created) cx.viol("M-proto: start delivered twice or out of order", cx.kdesc(key));
   st = Started;
   const KeyDef& kd = cx.prog->keys[key];
@@ -427,7 +427,7 @@ inline void TaskCore::onStart(TaskOps& ops) {
 }
 inline void TaskCore::onPrior(const std::string& v) {
   std::unique_lock<std::recursive_mutex> _g(cx.big, std::defer_lock); if (cx.sched == Sched::S2Threads) _g.lock(); cx.reap();
-  cx.checkThread("providePriorValue"); cx.event("providePriorValue");
+  cx.checkThread("providePriorValue"); cx.event("providePriorValue", key);
   ++cx.nPrior;
   if (!cx.traces.empty()) cx.traces.back().priors.push_back({key, v});
   if (st != Started || anyProvide) cx.viol("M-proto: providePriorValue not immediately after start", cx.kdesc(key));
@@ -441,7 +441,7 @@ inline void TaskCore::onPrior(const std::string& v) {
 }
 inline void TaskCore::onProvide(TaskOps& ops, uintptr_t id, const std::string* keyName, const std::string& v) {
   std::unique_lock<std::recursive_mutex> _g(cx.big, std::defer_lock); if (cx.sched == Sched::S2Threads) _g.lock(); cx.reap();
-  cx.checkThread("provideValue"); cx.event("provideValue");
+  cx.checkThread("provideValue"); cx.event("provideValue", key, (int)id);
   ++cx.nProvide;
   const KeyDef& kd = cx.prog->keys[key];
   if (st != Started && st != Waiting) cx.viol("M-proto: provideValue outside the start..inputsAvailable window", cx.kdesc(key));
@@ -469,7 +469,7 @@ inline void TaskCore::onProvide(TaskOps& ops, uintptr_t id, const std::string* k
 }
 inline void TaskCore::onInputsAvailable(TaskOps& ops) {
   std::unique_lock<std::recursive_mutex> _g(cx.big, std::defer_lock); if (cx.sched == Sched::S2Threads) _g.lock(); cx.reap();
-  cx.checkThread("inputsAvailable"); cx.event("inputsAvailable");
+  cx.checkThread("inputsAvailable"); cx.event("inputsAvailable", key);
   const KeyDef& kd = cx.prog->keys[key];
   if (st == Available || st == Completed) cx.viol("M-proto: inputsAvailable delivered more than once", cx.kdesc(key));
   if (st == Created) cx.viol("M-proto: inputsAvailable before start", cx.kdesc(key));
@@ -487,6 +487,7 @@ inline void TaskCore::onInputsAvailable(TaskOps& ops) {
   comp.leaves = c.chooseLeaves(kd);
   for (int lf : comp.leaves) c.leaf(cx.kname(lf), cx.world.ext[lf]);
   comp.value = kd.isInput ? cx.world.ext[key] : encodeValue(kd, c.h);
+  for (int dk : kd.discKeys) comp.leaves.push_back(dk);   // reported, recorded and scanned like a leaf; its value is not part of the computation
   comp.force = kd.forceChange;
   bool sync = cx.sched == Sched::S0Sync || (cx.sched == Sched::S1Deferred && cx.chooser.pick(3) == 0);
   if (sync) { ++cx.syncCompletions; deliver(ops); }
@@ -578,9 +579,10 @@ inline void Ctx::endBuild(const std::string& result) {
   tr.cancelled = cancelled; tr.result = result;
   tr.success = !cycleReported && !cancelled && errors.empty();
   if (!monitorsOn) return;
-  if (!tr.success) {
-    // A rule accepted in a build that then failed or was cancelled, whose discovered dependency was never brought up to date in that
-    // build, was computed from a state the engine has not recorded: its execution counts as interrupted (it may be re-run).
+  {
+    // A rule accepted in a build whose discovered dependency was never brought up to date in that build (the build failed or was
+    // cancelled, or the dependency is stuck in a cycle of its own behind a requested key that is complete) was computed from a state
+    // the engine has not recorded: its execution counts as interrupted (it may be re-run).
     for (auto& al : acceptedLeaves)
       for (int lf : al.second)
         if (!upToDateSeen[lf] && !completeSeen[lf]) { shadow[al.first].interrupted = true; ++nInterrupted; }
